@@ -36,7 +36,7 @@ RULE = ('checksum: sizes k*cs-1, k*cs, k*cs+1 (k=0..3) x chunk sizes {1,2,7,64,4
         'errno of errno.errorcode x every directory/path state. non-trivial = non-empty content or an injected '
         'fault or a directory-tree state; distinct by the full parameter tuple')
 REQUIRED_CLAUSES = [
-    'documented-keyword-call', 'checksum-equals-whole-digest', 'errno-decides-not-exception-class', 'tempfile-dirs-removed-between-calls',
+    'documented-keyword-call', 'falsy-remove-callable-is-used', 'no-descriptor-left-open', 'checksum-reentrant-at-yield', 'checksum-equals-whole-digest', 'errno-decides-not-exception-class', 'tempfile-dirs-removed-between-calls',
     'last-bytes-tail-and-count', 'last-bytes-n0', 'last-bytes-n-exceeds-size',
     'seek-EINVAL-fallback', 'seek-other-errno',
     'tempfile-new-distinct', 'tempfile-content-exact', 'tempfile-existing-untouched',
@@ -192,11 +192,47 @@ def _ev_cksum(ctx, case, fu):
         if alg is not None:
             kw['algorithm'] = alg
         want = hashlib.new(alg or 'sha256', data).hexdigest()
-        got, exc = _call(fu.compute_file_checksum, p, **kw)
+        inner = {'n': 0, 'bad': None}
+        if case.get('reentrant'):
+            # another checksum runs whenever the first one yields (time.sleep(0) under a green-thread scheduler, or a
+            # patched sleep that calls back): two computations in flight share nothing
+            import time as _time
+            p2 = os.path.join(d, 'other.bin')
+            data2 = content(max(1, size // 2 + 7), cseed + 1)
+            _write(p2, data2)
+            want2 = hashlib.new(alg or 'sha256', data2).hexdigest()
+
+            class _YieldingTime(object):
+                def __getattr__(self, name):
+                    return getattr(_time, name)
+
+                def sleep(self, secs):
+                    if inner['n'] < 3 and not inner.get('busy'):
+                        inner['busy'] = True
+                        inner['n'] += 1
+                        try:
+                            g2, e2 = _call(fu.compute_file_checksum, p2, **kw)
+                            if e2 is not None or g2 != want2:
+                                inner['bad'] = {'inner_got': g2, 'inner_want': want2, 'exc': e2}
+                        finally:
+                            inner['busy'] = False
+                    return _time.sleep(secs)
+            old_time = fu.time
+            fu.time = _YieldingTime()
+            try:
+                got, exc = _call(fu.compute_file_checksum, p, **kw)
+            finally:
+                fu.time = old_time
+            if inner['n']:
+                ctx.clause('checksum-reentrant-at-yield')
+            if inner['bad']:
+                ctx.fail('checksum-reentrant-at-yield', case, inner['bad'])
+        else:
+            got, exc = _call(fu.compute_file_checksum, p, **kw)
         still = _read(p)
     finally:
         shutil.rmtree(d, ignore_errors=True)
-    ctx.case(('cksum', size, cseed, cs, alg), nontrivial=size > 0)
+    ctx.case(('cksum', size, cseed, cs, alg, bool(case.get('reentrant'))), nontrivial=size > 0)
     ctx.clause('checksum-equals-whole-digest')
     ctx.h('algorithm x chunk size class', '%s/%s' % (alg or 'default', cs_class(cs, size)))
     tail = 0 if cs is None or size == 0 else size % cs
@@ -591,11 +627,22 @@ def _ev_delete_inject(ctx, case, fu):
         elif state == 'dir':
             os.mkdir(t)
         before = _snapshot(d)
-        got, exc = _call(fu.delete_if_exists, t, remove=fake_remove)
+        remover = fake_remove
+        if case.get('falsy_remove'):
+            # a call recorder that is "empty" (len 0, hence falsy) until it has been used - still the caller's remove
+            class _Recorder(object):
+                def __len__(self):
+                    return 0
+
+                def __call__(self, *a, **k):
+                    return fake_remove(*a, **k)
+            remover = _Recorder()
+            ctx.clause('falsy-remove-callable-is-used')
+        got, exc = _call(fu.delete_if_exists, t, remove=remover)
         after = _snapshot(d)
     finally:
         shutil.rmtree(d, ignore_errors=True)
-    ctx.case(('delete-inject', code, state, case.get('style')))
+    ctx.case(('delete-inject', code, state, case.get('style'), bool(case.get('falsy_remove'))))
     if not calls:
         ctx.fail('delete-uses-remove-callable', case, {'note': 'remove= callable was not called', 'exc': exc})
         return
@@ -700,11 +747,30 @@ EVALUATORS = {'cksum': _ev_cksum, 'last': _ev_last, 'seekfail': _ev_seekfail, 't
               'delete-inject': _ev_delete_inject, 'delete-real': _ev_delete_real}
 
 
+def _nfds():
+    try:
+        return len(os.listdir('/proc/self/fd'))
+    except OSError:
+        return None
+
+
 def evaluate(ctx, case):
     from oslo_utils import fileutils
     from vlib import callstyle
     fileutils = callstyle.proxy(fileutils)
+    # conservation of file descriptors over the whole case (every helper opens and closes what it needs; a leak of one
+    # descriptor per call is invisible in the results until the process runs out of them)
+    import gc
+    before = _nfds()
     EVALUATORS[case['kind']](ctx, case, fileutils)
+    after = _nfds()
+    if before is not None and after is not None:
+        if after > before:
+            gc.collect()
+            after = _nfds()
+        ctx.clause('no-descriptor-left-open')
+        if after > before:
+            ctx.fail('no-descriptor-left-open', case, {'open_before': before, 'open_after': after})
 
 
 # ----------------------------------------------------------------------
@@ -745,6 +811,9 @@ def run(ctx):
         emit(dict(kind='cksum', size=size, cseed=seed, cs=None, alg=None))
         emit(dict(kind='cksum', size=size, cseed=seed, cs=None, alg='md5'))
         emit(dict(kind='cksum', size=size, cseed=seed, cs=4096, alg=None))
+        for cs_, alg_ in ((None, None), (None, 'md5'), (4096, None), (65536, 'sha1'), (7, None)):
+            if size:
+                emit(dict(kind='cksum', size=size, cseed=seed, cs=cs_, alg=alg_, reentrant=True))
 
     # ---- 2. checksum: every size x every chunk size --------------------
     rsz = ctx.rng('sizes')
@@ -802,6 +871,8 @@ def run(ctx):
             emit(dict(kind='ensure-inject', code=code, state=state, mode=0o750, under=['a', 'b']))
         for state in ('file', 'absent', 'dir'):
             emit(dict(kind='delete-inject', code=code, state=state))
+            if isinstance(code, int) and code % 9 == 2:
+                emit(dict(kind='delete-inject', code=code, state=state, falsy_remove=True))
         if code in (errno.ENOENT, errno.EEXIST, errno.EACCES, errno.EPERM, errno.ENOTDIR, errno.EISDIR, errno.EBUSY, errno.EIO):
             for style in ('subclass', 'late-errno'):
                 for state in ('dir', 'file', 'absent', 'appears'):
